@@ -76,7 +76,9 @@ def verify_unit_worker(qualname: str) -> dict:
         source_unchanged = _b_unit.get("sha256") in (None, r.sha)
 
         def do_ob(ob):
-            v = discharge(ob, r.axioms, second_opinion=False, retry=source_unchanged)
+            # on changed source: no retry and a shorter budget per obligation (15 s; what verified on the baseline did so in
+            # milliseconds), so that a unit with many obligations that no longer verify reports them instead of running out of time
+            v = discharge(ob, r.axioms, second_opinion=False, retry=source_unchanged, budget_ms=None if source_unchanged else 15000)
             rec = {
                 "id": ob.id,
                 "kind": ob.kind,
